@@ -55,12 +55,13 @@ def gen_history_ops(rng: Rng, world: Dict[str, Any], n: int) -> List[Dict[str, A
         kind = rng.weighted([("callgraph", 5), ("freq_seq", 5), ("annotate", 1), ("decode", 1), ("noise", 2)])
         if kind == "callgraph":
             sel = rng.weighted([("one", 5), ("all", 2), ("none", 1)])
+            probe = [rng.below(100000) for _ in range(rng.randint(0, 3))]
             if sel == "one":
-                ops.append({"op": "callgraph", "ranks": [rng.choice(ranks)]})
+                ops.append({"op": "callgraph", "ranks": [rng.choice(ranks)], "probe_nodes": probe})
             elif sel == "all":
-                ops.append({"op": "callgraph", "ranks": list(ranks)})
+                ops.append({"op": "callgraph", "ranks": list(ranks), "probe_nodes": probe})
             else:
-                ops.append({"op": "callgraph", "ranks": None})
+                ops.append({"op": "callgraph", "ranks": None, "probe_nodes": probe})
         elif kind == "freq_seq":
             rank = rng.choice(ranks)
             ops.append({"op": "freq_seq", "operator": gen_operator(rng, world, rank), "rank": rank,
@@ -263,6 +264,57 @@ def check_backward_clause(res: Result, rows: Dict[int, Dict[str, Any]], si: int,
             res.violate("C13", f"backward-link/{tag}", {"id": i, "parent": rows[i].get("parent"), "want": within[0]}, si, oi)
 
 
+def check_stack_probe(res: Result, rows: Dict[int, Dict[str, Any]], pr: Dict[str, Any], si: int, oi: int) -> None:
+    """CallGraph.get_stack_of_node(idx): the node, its descendants and (unless skipped) its ancestors,
+    in the tool's own parent relation.  For a device activity: itself plus the ancestors of its launch."""
+    node = pr["node"]
+    if node not in rows:
+        return
+    row = rows[node]
+    children: Dict[int, List[int]] = {}
+    for i, r in rows.items():
+        p = r.get("parent")
+        if isinstance(p, int) and p >= 0:
+            children.setdefault(p, []).append(i)
+
+    def ancestors(i: int) -> Set[int]:
+        out: Set[int] = set()
+        seen = 0
+        while isinstance(i, int) and i >= 0 and i in rows and seen < 100000:
+            out.add(i)
+            i = rows[i].get("parent")
+            seen += 1
+        return out
+
+    is_device = isinstance(row.get("stream"), int) and row["stream"] > 0
+    if is_device:
+        p = row.get("parent")
+        if not (isinstance(p, int) and p >= 0 and p in rows):
+            return  # an unlinked device activity has no stack: behaviour not specified
+        want = {node} | (set() if pr["skip_ancestors"] else ancestors(p))
+    else:
+        if not (isinstance(row.get("depth"), int) and row["depth"] >= 0):
+            return  # not part of any call stack (e.g. an event on a device "thread")
+        sub: Set[int] = set()
+        stack = [node]
+        while stack:
+            x = stack.pop()
+            if x in sub:
+                continue
+            sub.add(x)
+            stack.extend(children.get(x, []))
+        want = sub | (set() if pr["skip_ancestors"] else ancestors(node))
+    res.oracle_evals += 1
+    res.probe("stack_of_node_checked")
+    if "exc" in pr:
+        res.violate("C13", f"get_stack_of_node-raised/{pr['exc']}", {"node": node, "rank": pr["rank"]}, si, oi)
+        return
+    if set(pr["ids"]) != want:
+        res.violate("C13", "get_stack_of_node/" + ("device" if is_device else "host"),
+                    {"node": node, "rank": pr["rank"], "skip_ancestors": pr["skip_ancestors"],
+                     "missing": sorted(want - set(pr["ids"]))[:6], "extra": sorted(set(pr["ids"]) - want)[:6]}, si, oi)
+
+
 def expected_patterns(rows: Dict[int, Dict[str, Any]], operator: str, min_len: int) -> Optional[Dict[str, List[Any]]]:
     """C16 reference from the tool's own tree; None when kernel order is ambiguous."""
     children: Dict[int, List[int]] = {}
@@ -356,6 +408,9 @@ def check(plan: Dict[str, Any], execution: Dict[str, Any], props: Optional[Set[s
                     builds[rank] = n + 1
                     last_built_rank = rank
                     res.states.add(("build", min(n, 3), len(fr["rows"]) > 127))
+                    for pr in r["obs"].get("stack_probes", []):
+                        if pr["rank"] == rank:
+                            check_stack_probe(res, rows, pr, si, r["i"])
             elif o["op"] == "freq_seq":
                 rank = o["rank"]
                 if not r["ok"]:
